@@ -24,6 +24,9 @@ PT = {"HeaderNack": 0x0000, "RoutingReq": 0x0005, "RoutingResp": 0x0006, "AliveR
 PT_INV = {v: k for k, v in PT.items()}
 
 
+UNKNOWN_TYPES = [0x4002, 0xF001, 0x9ABC, 0x0004]
+
+
 def hdr(ver: int, ptype: int, length: int) -> bytes:
     return struct.pack("!BBHL", ver, ver ^ 0xFF, ptype, length)
 
@@ -44,7 +47,7 @@ def enc(frame: dict[str, Any], ver: int = 3) -> bytes:
         p = bytes([frame["code"]])
     else:
         raise ValueError(k)
-    return hdr(frame.get("ver", ver), PT[k], len(p)) + p
+    return hdr(frame.get("ver", ver), frame.get("pt", PT[k]), len(p)) + p
 
 
 def dec_out(buf: bytes) -> tuple[list[dict[str, Any]], bytes]:
@@ -100,7 +103,9 @@ def gw_frame(name: str, req: bytes, n: int) -> dict[str, Any]:
     if name == "AliveReq":
         return {**base, "k": "AliveReq"}
     if name == "Unknown":
-        return {**base, "k": "Unknown"}
+        # payload types the client has no use for: a defined one (status response), the manufacturer specific
+        # range of ISO 13400-2 (0xF000-0xFFFF), an unassigned number, a vehicle announcement sent over TCP
+        return {**base, "k": "Unknown", "pt": UNKNOWN_TYPES[n % len(UNKNOWN_TYPES)]}
     if name == "HeaderNack":
         return {**base, "k": "HeaderNack", "code": 2}
     raise ValueError(name)
